@@ -396,6 +396,69 @@ pub fn case_shutdown(ctx: &mut Ctx, n: &str, phases: &str, delay: &str) {
     ctx.emit("c13", &[n, phases, delay], &obs);
 }
 
+
+/* ---------------- accept failures: descriptor exhaustion ---------------- */
+
+fn set_nofile_soft(limit: u64) -> bool {
+    std::process::Command::new("prlimit")
+        .args(["--pid", &std::process::id().to_string(), &format!("--nofile={limit}:")])
+        .status()
+        .map(|s| s.success())
+        .unwrap_or(false)
+}
+
+/// c12e: `n` = max_conns, `rounds` = how many times the descriptor table is exhausted while a client connects.
+/// The process's soft RLIMIT_NOFILE is lowered (prlimit), the table is filled with dummy descriptors so that the
+/// client's socket takes the last one and the server's accept() fails with EMFILE; then the dummies are closed.
+pub fn case_emfile(ctx: &mut Ctx, n: &str, rounds: &str) {
+    let nn: usize = n.parse().unwrap();
+    let rr: usize = rounds.parse().unwrap();
+    let obs = guard(move || {
+        let (log_tx, log_rx) = std::sync::mpsc::sync_channel::<servlin::log::internal::LogEvent>(10_000);
+        let log_guard = servlin::log::set_global_logger(log_tx);
+        let srv = start(nn);
+        if !set_nofile_soft(192) { return "no-prlimit".to_string(); }
+        let mut starved = 0;
+        let mut served = 0;
+        for round in 0..rr {
+            // let the previous round's connection be closed on the server side first
+            std::thread::sleep(Duration::from_millis(150));
+            let mut dummies: Vec<std::fs::File> = Vec::new();
+            while let Ok(f) = std::fs::File::open("/dev/null") { dummies.push(f); if dummies.len() > 4096 { break; } }
+            dummies.pop(); // exactly one descriptor is free: the client's socket takes it
+            let mut c = match TcpStream::connect_timeout(&srv.addr, Duration::from_secs(5)) {
+                Ok(c) => c,
+                Err(e) => { drop(dummies); let _ = set_nofile_soft(20000); return format!("noconn:{e}"); }
+            };
+            let _ = c.write_all(format!("GET /ok?{round} HTTP/1.1\r\n\r\n").as_bytes());
+            let _ = c.set_read_timeout(Some(Duration::from_millis(250)));
+            if read_response(&mut c).starts_with("timeout") { starved += 1; }
+            drop(dummies);
+            let _ = c.set_read_timeout(Some(Duration::from_secs(5)));
+            if read_response(&mut c) == "200/2" { served += 1; }
+        }
+        let _ = set_nofile_soft(20000);
+        // no slot was consumed by the failed accepts
+        let fresh: Vec<_> = (0..nn).map(|j| { let addr = srv.addr; std::thread::spawn(move || client(addr, 'g', 2000 + j, 0)) }).collect();
+        let full = wait_gauge(|g| g.entered >= nn, Duration::from_secs(8));
+        release_all();
+        let fresh_ok = fresh.into_iter().map(|h| h.join().map(|r| r.0).unwrap_or_default()).filter(|r| r == "200").count();
+        let max = gate().0.lock().unwrap().max;
+        let stopped = stop(srv);
+        drop(log_guard);
+        let logged = log_rx.try_iter().filter(|e| { let mut b = Vec::new(); e.write_jsonl(&mut b).is_ok() && String::from_utf8_lossy(&b).contains("too many open files") }).count();
+        format!("starved={starved} served={served} emfile_logged={} full={} fresh={fresh_ok} max={max} stopped={}", u8::from(logged >= rr), u8::from(full), u8::from(stopped))
+    });
+    ctx.emit("c12e", &[n, rounds], &obs);
+}
+
+pub fn run_emfile(ctx: &mut Ctx) {
+    let cases: &[(usize, usize)] = if ctx.thorough() { &[(1, 1), (1, 3), (2, 2), (3, 1), (4, 2)] } else { &[(1, 1), (2, 2)] };
+    for (i, (n, r)) in cases.iter().enumerate() {
+        if ctx.mine(i as u64 + 1) { case_emfile(ctx, &n.to_string(), &r.to_string()); }
+    }
+}
+
 pub fn run_tokens(ctx: &mut Ctx) {
     let mut idx = 0u64;
     if ctx.thorough() {
